@@ -6,10 +6,12 @@ slot="$1"; shift
 export VERIF_SELFTEST_DIR="/tmp/verif-selftest-$slot"
 mkdir -p /tmp/seedmatrix
 ALL_IDS=$(python3 -c "import json;print(' '.join(c['property_id'] for c in json.load(open('$VERIF/MANIFEST.json'))['checks']))")
+[ -n "${SEED_MATRIX_IDS:-}" ] && ALL_IDS="$SEED_MATRIX_IDS"
+OUT="${SEED_MATRIX_OUT:-/tmp/seedmatrix}"; mkdir -p "$OUT"
 for pair in "$@"; do
   set -- $pair; id="$1"; n="$2"
   src="/tmp/seed/$id/_seed/patch$n.diff"; [ -f "$src" ] || src="$VERIF/seeded/$id-$n/patch.diff"
   [ -f "$src" ] || { echo "$id/$n: no patch"; continue; }
-  "$VERIF/mutants/selftest.sh" --keep --patch "$src" $ALL_IDS 2>&1 | sed "s#^patch$n.diff#seed $id/$n#; s#^patch.diff#seed $id/$n#" | tee "/tmp/seedmatrix/$id-$n.log"
+  "$VERIF/mutants/selftest.sh" --keep --patch "$src" $ALL_IDS 2>&1 | sed "s#^patch$n.diff#seed $id/$n#; s#^patch.diff#seed $id/$n#" | tee "$OUT/$id-$n.log"
 done
 git -C /repo worktree remove --force "$VERIF_SELFTEST_DIR/repo" 2>/dev/null; rm -rf "$VERIF_SELFTEST_DIR"
